@@ -194,19 +194,25 @@ var c15RemotePool = []c15Codec{
 }
 
 type c15Case struct {
-	Phase   string `json:"phase"` // "direct" | "pc"
-	Local   []int  `json:"local"` // indexes into c15LocalPool
-	RTX     bool   `json:"rtx"`   // register an RTX codec for every local video codec
-	Seq     []int  `json:"seq"`   // indexes into c15RemotePool
+	Phase string `json:"phase"` // "direct" | "pc"
+	Local []int  `json:"local"` // indexes into c15LocalPool
+	RTX   bool   `json:"rtx"`   // register an RTX codec for every local video codec
+	// RTXOnly > 0: register the RTX codec only for the RTXOnly-th local video codec (1-based); needs RTX
+	RTXOnly int    `json:"rtx_only,omitempty"`
+	Seq     []int  `json:"seq"` // indexes into c15RemotePool
 	Variant string `json:"variant,omitempty"`
 }
 
 func c15Locals(cs c15Case) []c15Codec {
 	var out []c15Codec
+	nVideo := 0
 	for _, i := range cs.Local {
 		l := c15LocalPool[i]
 		out = append(out, l)
-		if cs.RTX && l.Kind == "video" {
+		if l.Kind == "video" {
+			nVideo++
+		}
+		if cs.RTX && l.Kind == "video" && (cs.RTXOnly == 0 || cs.RTXOnly == nVideo) {
 			out = append(out, c15Codec{Kind: "video", PT: l.PT + 1, Name: "rtx", Clock: 90000, Fmtp: fmt.Sprintf("apt=%d", l.PT)})
 		}
 	}
@@ -365,6 +371,31 @@ func c15Judge(c *vkit.Check, cs c15Case, where, kind string, used []c15Codec, lo
 				c.Violation("not-matched|"+tag, fmt.Sprintf("%s: %s is used but no local codec matches it", where, vkit.Short(n)), cs)
 
 				continue
+			}
+			// exact or partial: an RTX entry matches exactly when its primary matches a local codec exactly AND
+			// an RTX is registered locally for THAT local codec; any other local RTX is only a partial match
+			// (same mime type, other apt), which must not be used while the offer holds an exact match
+			if apt, ok := c15Params(r.Fmtp)["apt"]; ok && anyExact {
+				rtxExact, primaryListed := false, false
+				for _, p := range offered {
+					if c15IsApt(p) || fmt.Sprint(p.PT) != apt {
+						continue
+					}
+					primaryListed = true
+					if plv, pls := c15Level(p, locals); plv == 2 {
+						for _, pl := range pls {
+							for _, l := range locals {
+								if l.Kind == kind && c15IsApt(l) && c15Params(l.Fmtp)["apt"] == fmt.Sprint(pl.PT) {
+									rtxExact = true
+								}
+							}
+						}
+					}
+				}
+				if primaryListed && !rtxExact {
+					c.Violation("partial-despite-exact|"+tag,
+						fmt.Sprintf("%s: RTX %s is used although no RTX is registered locally for the codec its primary matches exactly (a partial match) while the offer contains exactly matching codecs (offered %s, locals %s)", where, vkit.Short(n), vkit.Short(offered), vkit.Short(locals)), cs)
+				}
 			}
 		} else {
 			switch lv {
@@ -622,9 +653,9 @@ func c15Subsets(n, k int) [][]int {
 func TestVerifC15(t *testing.T) {
 	c := vkit.New("C15", "exploration")
 	defer c.Finish(t)
-	c.Rule("case = (subset of the local registration pool, RTX for every local video codec or not, sequence of remote pool entries without repeated payload type); the sequence is written as SDP text, parsed by pion/sdp and applied by the real updateFromRemoteDescription (phase direct) or PeerConnection.SetRemoteDescription (phase pc); non-trivial = a non-empty negotiated set, classed by (kind, #exact, #partial, RTX present, payload type remapped, payload type colliding with a local one)")
+	c.Rule("case = (subset of the local registration pool, RTX for every local video codec / for the first or the last one only / for none, sequence of remote pool entries without repeated payload type); the sequence is written as SDP text, parsed by pion/sdp and applied by the real updateFromRemoteDescription (phase direct) or PeerConnection.SetRemoteDescription (phase pc); non-trivial = a non-empty negotiated set, classed by (kind, #exact, #partial, RTX present, payload type remapped, payload type colliding with a local one)")
 	c.Assume("reference notion of exact/partial compatibility: same mime (case-insensitive), clock and channels = partial; plus compatible format parameters (H264 packetization-mode and profile/constraint bytes, VP9 profile-id, AV1 profile, otherwise all shared keys equal) = exact")
-	c.Assume("RTX (apt) codecs are judged only for: offered with the remote's payload type, a local RTX registration exists, feedback; whether they count as exact or partial is not judged")
+	c.Assume("RTX (apt) codecs are judged for: offered with the remote's payload type, a local RTX registration exists, feedback, and - when the offer holds an exact match - that an RTX is registered locally for the codec its primary matches exactly")
 	c.Assume("the statement is read one-directionally (used ⊆ offered ∩ matched); completeness of the negotiated set and the fall-back to locally registered payload types are not demanded")
 
 	if raw, ok := c.ReplayCase(); ok {
@@ -652,18 +683,25 @@ func TestVerifC15(t *testing.T) {
 	}
 
 	type engine struct {
-		local []int
-		rtx   bool
+		local   []int
+		rtx     bool
+		rtxOnly int
 	}
 	var engines []engine
 	for _, sub := range c15Subsets(len(c15LocalPool), 3) {
-		engines = append(engines, engine{sub, false})
-		hasVideo := false
+		engines = append(engines, engine{sub, false, 0})
+		nVideo := 0
 		for _, i := range sub {
-			hasVideo = hasVideo || c15LocalPool[i].Kind == "video"
+			if c15LocalPool[i].Kind == "video" {
+				nVideo++
+			}
 		}
-		if hasVideo {
-			engines = append(engines, engine{sub, true})
+		if nVideo > 0 {
+			engines = append(engines, engine{sub, true, 0})
+		}
+		// RTX registered for one of several video codecs only (first / last)
+		if nVideo > 1 {
+			engines = append(engines, engine{sub, true, 1}, engine{sub, true, nVideo})
 		}
 	}
 	maxLen := c.Pick(3, 4)
@@ -692,7 +730,7 @@ func TestVerifC15(t *testing.T) {
 		}
 		memo := c15Memo{}
 		for _, e := range engines {
-			c15Direct(c, memo, c15Case{Phase: "direct", Local: e.local, RTX: e.rtx, Seq: seq}, parsed, remote)
+			c15Direct(c, memo, c15Case{Phase: "direct", Local: e.local, RTX: e.rtx, RTXOnly: e.rtxOnly, Seq: seq}, parsed, remote)
 		}
 		c.EvalN(len(engines))
 	})
@@ -727,7 +765,7 @@ func TestVerifC15(t *testing.T) {
 				continue
 			}
 			for _, v := range []string{"remote-first", "track-first"} {
-				pcCases = append(pcCases, pcCase{c15Case{Phase: "pc", Local: e.local, RTX: e.rtx, Seq: seq, Variant: v}, remote, text})
+				pcCases = append(pcCases, pcCase{c15Case{Phase: "pc", Local: e.local, RTX: e.rtx, RTXOnly: e.rtxOnly, Seq: seq, Variant: v}, remote, text})
 			}
 		}
 	}
